@@ -742,8 +742,18 @@ static void canon8(const uint8_t **p, size_t *n) { if (*n >= 3 && !memcmp(*p, "\
 /* NULL when got == orig apart from one leading BOM on either side; else a short diagnosis */
 static const char *text_diff(const uint8_t *orig, size_t on, const uint8_t *got, size_t gn)
 {
-	canon8(&orig, &on); canon8(&got, &gn);
+	/* "apart from a leading byte-order mark": one BOM may be present or absent on either side. When the text
+	 * itself starts with U+FEFF right after the BOM, stripping both sides blindly would misjudge the correct
+	 * answer (original minus its BOM), so every combination is accepted and only then a diagnosis is made. */
 	if (on == gn && (on == 0 || !memcmp(orig, got, on))) return NULL;
+	{
+		const uint8_t *o2 = orig, *g2 = got; size_t on2 = on, gn2 = gn;
+		canon8(&o2, &on2); canon8(&g2, &gn2);
+		if (on2 == gn && (gn == 0 || !memcmp(o2, got, gn))) return NULL;       /* result == original minus BOM */
+		if (gn2 == on && (on == 0 || !memcmp(g2, orig, on))) return NULL;      /* result minus BOM == original */
+		if (on2 == gn2 && (on2 == 0 || !memcmp(o2, g2, on2))) return NULL;     /* equal after removing one BOM on both sides */
+	}
+	canon8(&orig, &on); canon8(&got, &gn);
 	const char *res = "wrong-text";
 	uint32_t *a = malloc((on + 1) * sizeof(uint32_t)), *b = malloc((gn + 1) * sizeof(uint32_t));
 	long an = ref_utf8_decode(orig, on, a), bn = ref_utf8_decode(got, gn, b);
